@@ -33,7 +33,10 @@ LEVEL_TEXT = ("Machine-checked proof (Coq 8.16.1) over an executable model of st
               "channel map, the len(errs) == len(upstreams) rule and the six view handlers: for ANY number of upstreams and ANY contents every aggregated counter (13 per channel, "
               "8 per topic) is the int64 sum over the node entries (exact whenever the sum fits), paused = some node paused, node and client lists are exactly the entries'; "
               "topic / node / producer lists are duplicate-free unions of what the answering upstreams list; with any set of failing upstreams the value is the value for the "
-              "non-failing ones, a warning iff some fail, 502 iff a stage gets no answer; and, with every dereference of upstream-decoded data and the tombstone index written "
+              "non-failing ones, a warning iff some fail, 502 iff a stage gets no answer; none of it depends on the order in which the upstreams answer (permutation invariance, "
+              "which is what licenses a sequential model of the concurrent fetches); /api/counter's rows are exactly the per-node entries and each key carries their int64 sum; "
+              "the shapes the model relies on (fields summed by Add, Paused handling, the len(errs) rule of every Get*, every nil guard, the tombstone pairing expression) are regenerated "
+              "from internal/clusterinfo and internal/quantile on every run and pinned by obligations; and, with every dereference of upstream-decoded data and the tombstone index written "
               "as an explicit crashing operation, no input makes any view crash the process (only a recovered 500 for a null channel / unknown channel). Tied to the code by "
               "differential correspondence on the real nsqadmin (in-process for the views, subprocess for the hostile stream) and on the real functions through verifshim.")
 LEVEL_NOTE = ("Trusted: Coq kernel + vm_compute; the hand-written model; the stubs and parsers of the harness; the correspondence is sampled, the theorems are not. Partial: JSON decoding, "
